@@ -42,15 +42,19 @@ pub fn run(c: &ValStream, st: &mut Stats) -> CaseResult {
 		ensure!(same(hi.peek() as f64, got), "C04:highest-peek", "peek differs at step {t}");
 		let got = lo.next(&xv) as f64;
 		ensure!(same(got, emin), "C04:lowest", "Lowest({n}) step {t}: {got:e} expected {emin:e}; window {:?}", w);
+		ensure!(same(lo.peek() as f64, got), "C04:lowest-peek", "Lowest({n}) step {t}: peek() = {:e}, next returned {got:e}; window {:?}", lo.peek(), w);
 		let got = hld.next(&xv) as f64;
 		let ed = gen::vt(emax - emin);
 		ensure!(same(got, ed), "C04:delta", "HighestLowestDelta({n}) step {t}: {got:e} expected {ed:e}; window {:?}", w);
+		ensure!(same(hld.peek() as f64, got), "C04:delta-peek", "HighestLowestDelta({n}) step {t}: peek() = {:e}, next returned {got:e}; window {:?}", hld.peek(), w);
 		let got = hidx.next(&xv) as usize;
 		let ea = sel::newest_argmax_age(&w);
 		ensure!(got == ea, "C04:highest-index", "HighestIndex({n}) step {t}: {got} expected {ea}; window {:?}", w);
+		ensure!(hidx.peek() as usize == got, "C04:highest-index-peek", "HighestIndex({n}) step {t}: peek() = {}, next returned {got}; window {:?}", hidx.peek(), w);
 		let got = lidx.next(&xv) as usize;
 		let eb = sel::newest_argmin_age(&w);
 		ensure!(got == eb, "C04:lowest-index", "LowestIndex({n}) step {t}: {got} expected {eb}; window {:?}", w);
+		ensure!(lidx.peek() as usize == got, "C04:lowest-index-peek", "LowestIndex({n}) step {t}: peek() = {}, next returned {got}; window {:?}", lidx.peek(), w);
 		let got = smm.next(&xv) as f64;
 		let em = gen::vt(sel::median(&w));
 		ensure!(same(got, em), "C04:smm", "SMM({n}) step {t}: {got:e} expected {em:e}; window {:?}", w);
